@@ -12,7 +12,7 @@ pub struct Base<'a> {
     pub insts: &'a [AInst],
 }
 
-pub const N_MUTATORS: usize = 16;
+pub const N_MUTATORS: usize = 17;
 
 fn to_bytes(w: &[u32]) -> Vec<u8> {
     crate::util::words_to_bytes(w)
@@ -299,6 +299,26 @@ pub fn mutate(rng: &mut Rng, b: &Base, m: usize) -> (Vec<u8>, String) {
             }
             w.extend(inst);
             (to_bytes(&w), format!("constant of type %{} with {} literal words", ty, nw))
+        }
+        15 => {
+            // a module header where an instruction must start: two modules concatenated, a module repeated
+            // after itself, or just the first words of a header
+            let j = rng.below(b.starts.len() + 1);
+            let at = if j < b.starts.len() { b.starts[j] } else { b.words.len() };
+            let mut w = b.words[..at].to_vec();
+            let kind = rng.below(6);
+            match kind {
+                0 => w.push(MAGIC),
+                1 => w.extend_from_slice(&b.words[..2]),
+                2 => w.extend_from_slice(&b.words[..5]),
+                3 => w.extend_from_slice(&[MAGIC, 0x0001_0000, 0, 0, 0]),
+                4 => w.extend_from_slice(b.words),
+                _ => w.extend_from_slice(&[MAGIC.swap_bytes(), 0x0000_0100, 0, 0, 0]),
+            }
+            if rng.chance(1, 2) {
+                w.extend_from_slice(&b.words[at..]);
+            }
+            (to_bytes(&w), format!("module header (kind {}) embedded before instruction #{}", kind, j + 1))
         }
         _ => {
             // two mutations stacked
